@@ -105,13 +105,14 @@ fn cmp_record(e: &[u8], r: &WRecord, b: &BuiltRecord) -> Result<(), SFail> {
 /// All clauses on one built case; the first failure is returned, nothing is reported here.
 pub fn judge(b: &Built) -> Result<Option<SObs>, SFail> {
     let m = &b.msg;
+    if b.wire.len() > 65_535 {
+        // does not fit uncompressed: hickory may truncate it (TC) or fail; not this clause's business
+        return Ok(None);
+    }
     // (i)
     let e = match mon::catch(|| m.to_vec()) {
         Err(p) => return Err(f("S-panic", format!("encode|{}", p.site()), None, json!("Ok or Err"), json!({"panic": p.message, "at": p.location}))),
         Ok(Err(err)) => {
-            if b.wire.len() > 65_535 {
-                return Ok(None);
-            }
             return Err(f(
                 "S-encode-failed",
                 err_kind(&err),
